@@ -147,6 +147,25 @@ EXTRA3 = {
     "C19": "both arms of refine_droplets hand out refine_droplet's own results (PARMAP composed); the returned emulsion takes its layout from its own droplets (CLASSSEL:result-layout); class registry, f-strings and tuple stores interpreted, results of public package functions are not the requested value by construction",
     "C20": "an explicit dtype is applied before the members are added (REJECT:ctor-dtype); strict filter of Emulsion.copy (COPYALL:strict), surface distance of the overlap filter (SURFACE, SYMM composed), linked rows are records (LINK:record); strict closeness test of the removal loop (GUARDSHAPE:closeness composed)",
 }
+EXTRA4 = {
+    "C01": "the periodic difference vector of polar_coordinates is used as the grid computed it (METRIC:unmodified: no wrap by a cell count); the cluster at the origin becomes the droplet under no further condition (EXHAUST:origin-cluster)",
+    "C03": "Emulsion.append stores every item exactly once (PAIR:stores-once composed: the emulsion image renders a slice that is rebuilt through append); values modified in place after their definition are not identified with it (path evaluation marks in-place stores)",
+    "C04": "sharp-branch truth table over the spellings of a boolean request (builtin bool, np.bool_, dtype object); working arrays of the fit do not take the image's dtype (DTYPE composed)",
+    "C06": "no exit of a matcher before the step that stores the unlinked droplets (PATHCOUNT:runs-to-end)",
+    "C08": "Emulsion.copy's default filter as a truth table over concrete radii incl. NaN (COPYALL:default-filter)",
+    "C09": "definite assignment of locals with path confirmation (UNBOUND), identity-less reductions over the possibly empty amplitude vector (EMPTY:amplitude-reduction), `is None` tests on the optional sequence arguments of the collection constructors (NONETEST)",
+    "C10": "overlaps is not replaced in a subclass (OVERRIDE), every pair of the distance matrix is written unconditionally (SYMM:every-pair)",
+    "C11": "boolean options are used by truth value, not identity (FLAGTEST)",
+    "C12": "a re-declared property keeps the setter of its base class (WIRING:setters-kept), the volume setter accepts 0 (WIRING:zero)",
+    "C13": "layout of the interface positions (components-first arrays are transposed, not reshaped: UNITVEC), volume and surface area of every perturbed class read the shape or refuse (INTEGRAL:reads-shape), no module-level state in the shape quantities (STATELESS)",
+    "C14": "a stored option is the caller's value: the constructor parameter is not rebound before the store (FORWARD), exact NaN-aware droplet equality (IOAGREE:equality composed)",
+    "C15": "image, candidates and options reach the per-candidate refinement as given (PARMAP:inputs-as-given)",
+    "C16": "per-axis components found by their use in the outer sum; hand-written mode numbers judged by their range (INDEXAGREE)",
+    "C17": "periodic metric of get_pairwise_distances composed in (METRIC), hand-written mode numbers (INDEXAGREE)",
+    "C18": "no result before the binary image is formed (GUARDSHAPE:no-shortcut), between-class variance in exact normal form (THRESH:variance), candidates reach the refinement unfiltered (PARMAP:inputs-as-given)",
+    "C19": "a branch of the selection decided by a measured quantity is a wrong-table result (one class and layout per result), element-wise numpy functions of measured quantities are measured quantities",
+    "C20": "both settings of merge(inplace) go through the class' own kernel on every path (SIBLING/EFFECT of merge composed), Emulsion.copy's filters as truth tables (COPYALL)",
+}
 ALL_SUFFIX = "; all rules run on the pre-normalised program (dropstat/prenorm.py: spelling-level normal forms; dropstat/localroles.py: canonical local names)"
 EXTRA2 = {
     'C01': "surface-distance and symmetry of the duplicate filter's distance matrix (SURFACE, SYMM)", 'C04': 'levels defined for an empty fit region (LEVELS:empty-region), feasibility for both signs of the intensity range (FEASIBLE, min/max resolved per case)',
@@ -180,7 +199,7 @@ def main():
             "engine": "dropstat",
             "level_claimed": {"category": "other", "text": d["text"], "design_ref": d["ref"]},
             "level_note": d["note"],
-            "technique": d["technique"] + ("; " + EXTRA[pid] if pid in EXTRA else "") + ("; " + EXTRA2[pid] if pid in EXTRA2 else "") + ("; " + EXTRA3[pid] if pid in EXTRA3 else "") + ALL_SUFFIX,
+            "technique": d["technique"] + ("; " + EXTRA[pid] if pid in EXTRA else "") + ("; " + EXTRA2[pid] if pid in EXTRA2 else "") + ("; " + EXTRA3[pid] if pid in EXTRA3 else "") + ("; " + EXTRA4[pid] if pid in EXTRA4 else "") + ALL_SUFFIX,
         })
     na = list(NOT_APPLICABLE)
     claimed = {c["property_id"] for c in checks}
